@@ -182,6 +182,9 @@ func (f Float) ToString() String {
 func (f Float) Hash() UInt64 {
 	d := xxhash.New()
 	b := make([]byte, 8)
+	if f == 0 {
+		f = 0 // canonicalise -0.0 to +0.0, since 0.0 == -0.0
+	}
 	binary.LittleEndian.PutUint64(b, math.Float64bits(float64(f)))
 	d.Write(b)
 	return UInt64(d.Sum64())
@@ -533,7 +536,7 @@ func (f Float) CompareSmallInt(other SmallInt) Value {
 	if f.IsNaN() {
 		return Nil
 	}
-	return SmallInt(f.Cmp(Float(other))).ToValue()
+	return SmallInt(-CompareInt64WithFloat64(int64(other), float64(f))).ToValue()
 }
 
 func (f Float) CompareInt(other Value) Value {
@@ -547,7 +550,7 @@ func (f Float) CompareBigInt(other *BigInt) Value {
 	if f.IsNaN() {
 		return Nil
 	}
-	return SmallInt(f.Cmp(other.ToFloat())).ToValue()
+	return SmallInt(-CompareBigIntWithFloat64(other.ToGoBigInt(), float64(f))).ToValue()
 }
 
 // Check whether f is greater than other and return an error
@@ -594,7 +597,7 @@ func (f Float) GreaterThanFloat(other Float) bool {
 }
 
 func (f Float) GreaterThanSmallInt(other SmallInt) bool {
-	return f > Float(other)
+	return CompareInt64WithFloat64(int64(other), float64(f)) == -1
 }
 
 func (f Float) GreaterThanInt(other Value) bool {
@@ -605,8 +608,7 @@ func (f Float) GreaterThanInt(other Value) bool {
 }
 
 func (f Float) GreaterThanBigInt(other *BigInt) bool {
-	oFloat := other.ToFloat()
-	return f > oFloat
+	return CompareBigIntWithFloat64(other.ToGoBigInt(), float64(f)) == -1
 }
 
 // Check whether f is greater than or equal to other and return an error
@@ -653,7 +655,8 @@ func (f Float) GreaterThanEqualFloat(other Float) bool {
 }
 
 func (f Float) GreaterThanEqualSmallInt(other SmallInt) bool {
-	return f >= Float(other)
+	c := CompareInt64WithFloat64(int64(other), float64(f))
+	return c == -1 || c == 0
 }
 
 func (f Float) GreaterThanEqualInt(other Value) bool {
@@ -664,8 +667,8 @@ func (f Float) GreaterThanEqualInt(other Value) bool {
 }
 
 func (f Float) GreaterThanEqualBigInt(other *BigInt) bool {
-	oFloat := other.ToFloat()
-	return f >= oFloat
+	c := CompareBigIntWithFloat64(other.ToGoBigInt(), float64(f))
+	return c == -1 || c == 0
 }
 
 // Check whether f is less than other and return an error
@@ -712,7 +715,7 @@ func (f Float) LessThanFloat(other Float) bool {
 }
 
 func (f Float) LessThanSmallInt(other SmallInt) bool {
-	return f < Float(other)
+	return CompareInt64WithFloat64(int64(other), float64(f)) == 1
 }
 
 func (f Float) LessThanInt(other Value) bool {
@@ -723,8 +726,7 @@ func (f Float) LessThanInt(other Value) bool {
 }
 
 func (f Float) LessThanBigInt(other *BigInt) bool {
-	oFloat := other.ToFloat()
-	return f < oFloat
+	return CompareBigIntWithFloat64(other.ToGoBigInt(), float64(f)) == 1
 }
 
 // Check whether f is less than or equal to other and return an error
@@ -771,7 +773,8 @@ func (f Float) LessThanEqualFloat(other Float) bool {
 }
 
 func (f Float) LessThanEqualSmallInt(other SmallInt) bool {
-	return f <= Float(other)
+	c := CompareInt64WithFloat64(int64(other), float64(f))
+	return c == 1 || c == 0
 }
 
 func (f Float) LessThanEqualInt(other Value) bool {
@@ -782,8 +785,8 @@ func (f Float) LessThanEqualInt(other Value) bool {
 }
 
 func (f Float) LessThanEqualBigInt(other *BigInt) bool {
-	oFloat := other.ToFloat()
-	return f <= oFloat
+	c := CompareBigIntWithFloat64(other.ToGoBigInt(), float64(f))
+	return c == 1 || c == 0
 }
 
 // Check whether f is equal to other
@@ -795,7 +798,7 @@ func (f Float) LaxEqual(other Value) bool {
 	if other.IsReference() {
 		switch o := other.AsReference().(type) {
 		case *BigInt:
-			return f == o.ToFloat()
+			return CompareBigIntWithFloat64(o.ToGoBigInt(), float64(f)) == 0
 		case *BigFloat:
 			if f.IsNaN() || o.IsNaN() {
 				return false
@@ -803,9 +806,9 @@ func (f Float) LaxEqual(other Value) bool {
 			fBigFloat := (&BigFloat{}).SetFloat(f)
 			return fBigFloat.Cmp(o) == 0
 		case Int64:
-			return f == Float(o)
+			return CompareInt64WithFloat64(int64(o), float64(f)) == 0
 		case UInt64:
-			return f == Float(o)
+			return CompareUint64WithFloat64(uint64(o), float64(f)) == 0
 		case Float64:
 			return float64(f) == float64(o)
 		default:
@@ -815,25 +818,27 @@ func (f Float) LaxEqual(other Value) bool {
 
 	switch other.ValueFlag() {
 	case SMALL_INT_FLAG:
-		return f == Float(other.AsSmallInt())
+		return CompareInt64WithFloat64(int64(other.AsSmallInt()), float64(f)) == 0
 	case FLOAT_FLAG:
 		return f == other.AsFloat()
 	case INT64_FLAG:
-		return f == Float(other.AsInlineInt64())
+		return CompareInt64WithFloat64(int64(other.AsInlineInt64()), float64(f)) == 0
 	case INT32_FLAG:
-		return f == Float(other.AsInt32())
+		return CompareInt64WithFloat64(int64(other.AsInt32()), float64(f)) == 0
 	case INT16_FLAG:
-		return f == Float(other.AsInt16())
+		return CompareInt64WithFloat64(int64(other.AsInt16()), float64(f)) == 0
 	case INT8_FLAG:
-		return f == Float(other.AsInt8())
+		return CompareInt64WithFloat64(int64(other.AsInt8()), float64(f)) == 0
+	case UINT_FLAG:
+		return CompareUint64WithFloat64(uint64(other.AsUInt()), float64(f)) == 0
 	case UINT64_FLAG:
-		return f == Float(other.AsInlineUInt64())
+		return CompareUint64WithFloat64(uint64(other.AsInlineUInt64()), float64(f)) == 0
 	case UINT32_FLAG:
-		return f == Float(other.AsUInt32())
+		return CompareUint64WithFloat64(uint64(other.AsUInt32()), float64(f)) == 0
 	case UINT16_FLAG:
-		return f == Float(other.AsUInt16())
+		return CompareUint64WithFloat64(uint64(other.AsUInt16()), float64(f)) == 0
 	case UINT8_FLAG:
-		return f == Float(other.AsUInt8())
+		return CompareUint64WithFloat64(uint64(other.AsUInt8()), float64(f)) == 0
 	case FLOAT64_FLAG:
 		return float64(f) == float64(other.AsInlineFloat64())
 	case FLOAT32_FLAG:
